@@ -49,6 +49,18 @@ static Counts compare(const WEl& root, const MModel& m)
             bad.graph += !eq(ln + "urgent", l.children("urgent").empty() ? "0" : "1", ml.urgent ? "1" : "0");
             bad.graph += !eq(ln + "committed", l.children("committed").empty() ? "0" : "1", ml.committed ? "1" : "0");
         }
+        auto bps = t.children("branchpoint");
+        bad.graph += !eq(tn + "#branchpoints", std::to_string(bps.size()), std::to_string(mt.bps.size()));
+        std::vector<std::string> bpids;
+        for (size_t i = 0; i < bps.size(); i++) {
+            auto* id = bps[i]->attr("id");
+            std::string bn = tn + "bp" + std::to_string(i) + ".";
+            bad.graph += !eq(bn + "has-id", id ? "1" : "0", "1");
+            std::string ids_ = id ? *id : "";
+            for (auto& o : ids) bad.graph += !eq(bn + "id-unique", o == ids_ ? "dup" : "ok", "ok");
+            for (auto& o : bpids) bad.graph += !eq(bn + "id-unique", o == ids_ ? "dup" : "ok", "ok");
+            bpids.push_back(ids_);
+        }
         auto inits = t.children("init");
         bad.graph += !eq(tn + "#init", std::to_string(inits.size()), "1");
         if (inits.size() == 1 && (size_t)mt.init < ids.size()) { auto* r = inits[0]->attr("ref"); bad.graph += !eq(tn + "init.ref", r ? *r : "<none>", ids[mt.init]); }
@@ -62,6 +74,8 @@ static Counts compare(const WEl& root, const MModel& m)
             bad.graph += !eq(en + "#target", std::to_string(dst.size()), "1");
             if (!me.src_bp && src.size() == 1 && (size_t)me.src < ids.size()) { auto* r = src[0]->attr("ref"); bad.graph += !eq(en + "source.ref", r ? *r : "<none>", ids[me.src]); }
             if (!me.dst_bp && dst.size() == 1 && (size_t)me.dst < ids.size()) { auto* r = dst[0]->attr("ref"); bad.graph += !eq(en + "target.ref", r ? *r : "<none>", ids[me.dst]); }
+            if (me.src_bp && src.size() == 1 && (size_t)me.src < bpids.size()) { auto* r = src[0]->attr("ref"); bad.graph += !eq(en + "source.ref(bp)", r ? *r : "<none>", bpids[me.src]); }
+            if (me.dst_bp && dst.size() == 1 && (size_t)me.dst < bpids.size()) { auto* r = dst[0]->attr("ref"); bad.graph += !eq(en + "target.ref(bp)", r ? *r : "<none>", bpids[me.dst]); }
             auto* c = e.attr("controllable");
             bool ctrl = !c || *c == "true";
             bad.ctrl += !eq(en + "controllable", ctrl ? "1" : "0", edge_control(me) ? "1" : "0");
@@ -161,16 +175,23 @@ extern "C" void harness_labels()  /* vf: bounds=label_presence_on_2_edges(select
     vf_reach("end");
 }
 
-extern "C" void harness_branchpoints()  /* vf: bounds=edges_through_a_branchpoint(source_or_target),with_probability_weights;writing_must_not_crash reach=accepted */
+extern "C" void harness_branchpoints()  /* vf: bounds=1..2_branchpoints;3_edges:one_into_a_branchpoint_from_a_symbolic_location,two_out_of_a_symbolic_branchpoint_to_symbolic_locations(with_probability_weights),optional_location_to_location_edge,symbolic_edge_order reach=end */
 {
     MModel m; m.gdecl = GDECL; m.system = "system T;";
     MTemplate t = base_template("T", 0);
-    t.bps = {"id5"};
-    int shape = vf_pick("!shape", 3);
-    MEdge a; a.src = 0; a.dst_bp = true; a.dst = 0; a.sync = "bc!";
-    MEdge b; b.src_bp = true; b.src = 0; b.dst = 1; b.prob = "2";
-    MEdge c; c.src_bp = true; c.src = 0; c.dst = 2; c.prob = "3";
-    if (shape == 0) t.edges = {a, b, c}; else if (shape == 1) t.edges = {b, a}; else t.edges = {a, b};
+    int nbp = 1 + vf_pick("!branchpoints", 2);
+    t.bps = {"id5"}; if (nbp == 2) t.bps.push_back("id6");
+    int into = vf_pick("!entered", nbp), from = vf_pick("!left", nbp);
+    MEdge a; a.src = vf_pick("!a_src", 3); a.dst_bp = true; a.dst = into; a.sync = "bc!";
+    MEdge b; b.src_bp = true; b.src = from; b.dst = vf_pick("!b_dst", 3); b.prob = "2";
+    MEdge c; c.src_bp = true; c.src = from; c.dst = vf_pick("!c_dst", 3); c.prob = "3"; c.assign = "h = 21";
+    MEdge d; d.src = 2; d.dst = 2; d.guard = "g < 11";
+    switch (vf_pick("!order", 4)) {
+    case 0: t.edges = {a, b, c}; break;
+    case 1: t.edges = {b, a, c}; break;
+    case 2: t.edges = {c, d, b, a}; break;
+    default: t.edges = {a, d, b}; break;
+    }
     m.templs = {t};
     run(m);
     vf_reach("end");
